@@ -501,7 +501,9 @@ func init() {
 					for _, c := range []struct {
 						lit   string
 						valid bool
-					}{{"0", true}, {"1", true}, {"007", true}, {"2147483647", true}, {"2147483646", true}, {"2147483648", false}, {"4294967296", false}, {"99999999999999999999", false}} {
+					}{{"0", true}, {"1", true}, {"007", true}, {"2147483647", true}, {"2147483646", true}, {"2147483648", false}, {"4294967296", false}, {"99999999999999999999", false},
+						// leading zeros do not make a number longer: the literal denotes the same Integer however many there are
+						{"000000000042", true}, {"0000000000000000000000000000002147483647", true}, {"00000000000", true}, {"000000000002147483648", false}} {
 						res := lib.Run(c.lit, nil, nil)
 						r.Eval()
 						r.Nontrivial(c.lit, res.Class())
@@ -561,6 +563,33 @@ func init() {
 				}},
 				{Name: "proto-temporal-grid", N: len(temporals), Note: "valid full-precision texts -> proto (own builder) -> System -> proto, and fhir.Parse*/fhirconv.*ToString against jsonformat", Run: func(i int, r *core.Rec) {
 					c15TemporalProto(r, temporals[i].kind, temporals[i].text, temporals[i].class)
+				}},
+				{Name: "parser-streaks", N: len(c15StreakKinds), Note: "the FHIR primitive parsers are functions of their text: after 24 consecutive parses of one text (each precision and zone form in turn), every probe text of the kind (all precisions, fractions of 3 and 6 digits - the forms a FHIR JSON renderer writes -, Z / + / - offsets) still parses to the element the harness builds itself", Run: func(i int, r *core.Rec) {
+					k := c15StreakKinds[i]
+					for _, streak := range k.texts {
+						for n := 0; n < 24; n++ {
+							core.Try(func() { k.parse(streak) })
+							r.Eval()
+						}
+						for _, probe := range k.texts {
+							var got proto.Message
+							var err error
+							pi := core.Try(func() { got, err = k.parse(probe) })
+							r.Eval()
+							r.State("parser-streak|" + k.name)
+							r.Nontrivial(k.name, streak, probe)
+							want := k.build(probe)
+							w := core.W{"parser": k.name, "after_24_parses_of": streak, "text": probe, "parsed": fmt.Sprint(got), "own_builder": fmt.Sprint(want)}
+							if pi != nil {
+								r.Fail("parser-streak|"+k.name+"|"+pi.Key(), w)
+							} else if err != nil {
+								w["err"] = err.Error()
+								r.Fail("parser-streak|"+k.name+"|valid-text-rejected", w)
+							} else if !sameTemporalProto(got, want) {
+								r.Fail("parser-streak|"+k.name+"|parses-to-another-element-after-a-streak", w)
+							}
+						}
+					}
 				}},
 				{Name: "narrow-8-16bit", N: 4, Note: "every value of int8, uint8, int16, uint16 to all 11 integer types", Run: func(i int, r *core.Rec) {
 					switch i {
@@ -1148,6 +1177,23 @@ func c15TemporalProto(r *core.Rec, kind, text, class string) {
 			}
 		}
 	}
+}
+
+var c15StreakKinds = []struct {
+	name  string
+	texts []string
+	parse func(string) (proto.Message, error)
+	build func(string) proto.Message
+}{
+	{"ParseDateTime", []string{"2019-01-02T01:02:03Z", "2019-01-02T01:02:03-04:00", "2019-01-02T01:02:03+05:30", "2020-05-06T07:08:09.123Z", "2020-05-06T07:08:09.123456Z", "2020-05-06T07:08:09.120-04:00", "2020-05-06T07:08:09.500+05:30",
+		"2020-05-06T07:08:09.000001+05:30", "2020", "2020-05", "2020-05-06"},
+		func(t string) (proto.Message, error) { return fhir.ParseDateTime(t) }, func(t string) proto.Message { return lib.ProtoDateTime(t) }},
+	{"ParseInstant", []string{"2019-01-02T01:02:03Z", "2019-01-02T01:02:03-04:00", "2020-05-06T07:08:09.123Z", "2020-05-06T07:08:09.123456+05:30", "2020-05-06T07:08:09.120-04:00"},
+		func(t string) (proto.Message, error) { return fhir.ParseInstant(t) }, func(t string) proto.Message { return lib.ProtoInstant(t) }},
+	{"ParseDate", []string{"2019", "2019-01", "2019-01-02", "2020-02-29", "0001-01-01", "9999-12-31"},
+		func(t string) (proto.Message, error) { return fhir.ParseDate(t) }, func(t string) proto.Message { return lib.ProtoDate(t) }},
+	{"ParseTime", []string{"01:02:03", "23:59:59", "07:08:09.123", "07:08:09.123456", "07:08:09.500", "00:00:00"},
+		func(t string) (proto.Message, error) { return fhir.ParseTime(t) }, func(t string) proto.Message { return lib.ProtoTime(t) }},
 }
 
 // sameOffsetText: two printed DateTimes are the same text, Z and +00:00 being one offset
